@@ -1,18 +1,18 @@
 SPECIFICATION MCSpec
 CONSTANTS
     BufCap = 3
-    Ls = {3}
-    Ns = {0, 2}
-    Opts = {4, 5, 7}
-    Sizes = {1, 2}
-    MaxSends = 4
+    Ls = {0, 3}
+    Ns = {0, 1, 2}
+    Opts = {0, 1, 4}
+    Sizes = {1, 2, 4}
+    MaxSends = 3
     MaxDay = 1
     MaxRestarts = 1
-    MaxCrash = 1
+    MaxCrash = 0
     MaxFault = 0
-    MaxGzWrites = 2
+    MaxGzWrites = 1
     Ticks = FALSE
-    Fatal = FALSE
+    Fatal = TRUE
     FlushOnFatal = TRUE
 INVARIANT TypeOK
 INVARIANT ReadBackIsHistory
